@@ -70,7 +70,7 @@ CHECKS = {
              "f_start - fch1 + drift*t, negated for descending bands (exact over Q). The two-noise-source case is refuted in the model "
              "(c10_two_noise_sources_refuted) and reported as KNOWN-FINDING D21. Every request of the implementation is rebuilt from the "
              "model's description with numpy from a clone of the generator and compared bit for bit at dyadic rates.",
-        design="3/C10", technique="Coq induction over request lists / op histories + generator-indexed correspondence"),
+        design="3/C10", technique="source-regenerated scalar kernels (tools/py2v.py) proved equal to the model + Coq induction over request lists / op histories + generator-indexed correspondence"),
     "C02": dict(
         text="Theorems for all block geometries, both bit depths (q = bytes per complex sample), any antenna/pol/channel counts and every "
              "sub-block plan produced by any num_subblocks >= 1: each write of collect_data_block lands on the cell the GUPPI RAW layout assigns "
